@@ -6,11 +6,15 @@ import time
 
 
 class Faults:
-    """search: {(row_id, condition_index): "raise"|"timeout"}; graph: {row_id: "raise"|"timeout"}"""
+    """search: {(row_id, condition_index): kind}; graph: {row_id: kind}; merge: {row_id: kind} (inside `merge` called by
+    `impute_reaction`); kind = "raise" | "raise-empty" (an exception whose str() is empty, e.g. MemoryError()) | "timeout"
+    (search and graph only)"""
 
-    def __init__(self, search=None, graph=None, sleep=2.6):
+    def __init__(self, search=None, graph=None, sleep=2.6, merge=None):
         self.search = dict(search or {})
         self.graph = dict(graph or {})
+        self.merge = dict(merge or {})
+        self._cur_rid = None
         self.sleep = sleep
         self.fired = []
         self._saved = []
@@ -34,6 +38,9 @@ class Faults:
             if kind == "raise":
                 F.fired.append(("search", rid, c, kind))
                 raise RuntimeError("injected search failure")
+            if kind == "raise-empty":
+                F.fired.append(("search", rid, c, kind))
+                raise MemoryError()
             if kind == "timeout":
                 F.fired.append(("search", rid, c, kind))
                 time.sleep(F.sleep)  # past the 2 s wait; then the zombie finishes and writes into the returned record
@@ -62,13 +69,48 @@ class Faults:
             if kind == "raise":
                 F.fired.append(("graph", rid, kind))
                 raise RuntimeError("injected fragment-analysis failure")
+            if kind == "raise-empty":
+                F.fired.append(("graph", rid, kind))
+                raise TimeoutError()
             if kind == "timeout":
                 F.fired.append(("graph", rid, kind))
                 time.sleep(F.sleep)
+            if kind == "timeout-long":
+                # the abandoned job keeps running for more than a whole further budget: whatever is analysed next must not
+                # have to wait for it
+                F.fired.append(("graph", rid, kind))
+                time.sleep(2 * F.sleep)
             return orig_pairs(*a, **k)
 
         self._saved.append((FindMissingGraphs, "find_missing_parts_pairs", FindMissingGraphs.__dict__["find_missing_parts_pairs"]))
         FindMissingGraphs.find_missing_parts_pairs = staticmethod(pairs)
+
+        if self.merge:
+            import synrbl.SynMCSImputer.mcs_based_method as mbm
+
+            orig_impute, orig_merge = mbm.impute_reaction, mbm.merge
+
+            def impute(reaction_dict, *a, **k):
+                F._cur_rid = reaction_dict.get("id")
+                try:
+                    return orig_impute(reaction_dict, *a, **k)
+                finally:
+                    F._cur_rid = None
+
+            def merge(*a, **k):
+                kind = F.merge.get(F._cur_rid)
+                if kind == "raise":
+                    F.fired.append(("merge", F._cur_rid, kind))
+                    raise RuntimeError("injected merge failure")
+                if kind == "raise-empty":
+                    F.fired.append(("merge", F._cur_rid, kind))
+                    raise AssertionError()
+                return orig_merge(*a, **k)
+
+            self._saved.append((mbm, "impute_reaction", orig_impute))
+            self._saved.append((mbm, "merge", orig_merge))
+            mbm.impute_reaction = impute
+            mbm.merge = merge
         return self
 
     def __exit__(self, *a):
@@ -77,4 +119,4 @@ class Faults:
         self._saved = []
 
     def affected(self):
-        return {k[0] for k in self.search} | set(self.graph)
+        return {k[0] for k in self.search} | set(self.graph) | set(self.merge)
